@@ -67,7 +67,11 @@ def report_case(chk, MX, sc, acs, sd, ro, tag):
         vn2, va2 = float(np.dot(v[i], un_un[i])), float(np.dot(v[i], ua_un[i]))
         at.append((vn2, va2, float(np.arctan2(vn2, va2))))
     defs = defs + ["Definition at_%s := %s." % (tag, ftable2(at))]
-    ipts = ["(mk_iptF %s %s %s %s %s %s %s %s %s)" % (fv3(sc._r_CG[i]), fhex(rho[i]), fv3(ua_un[i]), fv3(un_un[i]), fhex(d2[i]), fhex(d1[i]),
+    # lever arms from the aircraft's own data (body-frame control points minus CG, turned to Earth axes), not from the scene's cache
+    rcg = np.zeros((N, 3))
+    for ap, sl in zip(sc._airplane_objects, sc._airplane_slices):
+        rcg[sl] = H.quat_inv_trans(ap.q, np.array(ap.PC, dtype=float) - np.array(ap.CG, dtype=float)[np.newaxis, :])
+    ipts = ["(mk_iptF %s %s %s %s %s %s %s %s %s)" % (fv3(rcg[i]), fhex(rho[i]), fv3(ua_un[i]), fv3(un_un[i]), fhex(d2[i]), fhex(d1[i]),
                                                      fhex(d0[i]), fhex(m1[i]), fhex(m0[i])) for i in range(N)]
     defs.append("Definition st_%s : list station := combine (combine (combine cs_%s [%s]) %s) %s." % (
         tag, tag, "; ".join(ipts), "[" + "; ".join(fv3(x) for x in v) + "]", flist(g)))
